@@ -5,6 +5,7 @@ one iteration of `find_references`, `references`. Replay oracle: annotated progr
 driven through the real oal-lsp (lib/lspcorpus.py).
 """
 import os
+import re
 
 import mirlib
 import mirsym as ms
@@ -137,7 +138,7 @@ def check():
     o.assumptions = ["syntax_at, the syntax accessors, Core::definition, External::node and node_location are uninterpreted",
                      "<Definition as PartialEq>::eq in the handlers is the equality whose own MIR is checked by the identity lemmas (every component compared)"]
     o.bounds = {"control": "all paths; loops: one arbitrary iteration from an arbitrary state", "values": "unbounded"}
-    o.outside = ["that the definition slot holds the innermost binder (C08)", "syntax_at's offset-to-node search", "node_location's range conversion (C16)"]
+    o.outside = ["that the definition slot holds the innermost binder (C08)", "node_location's range conversion (C16)"]
     L = mirlib.Lemma(o)
     S = L.smt
     bad = []
@@ -201,6 +202,27 @@ def check():
     mirlib.check_translator(o, ex, "find_definition")
 
     find_references_lemmas(o, L, S, E, ML, f_fr, structural, on_sat)
+
+    # syntax_at: the node under the cursor is the first node of the wanted kind whose span contains the offset - the
+    # search runs over all descendants, casts, and tests containment; no other stage can end it early or drop a hit
+    try:
+        f_sa = [f for f in ML.funcs if f.kind == "fn" and f.name.split("::")[-1] == "syntax_at" and "{closure" not in f.name]
+        if len(f_sa) != 1:
+            raise KeyError("syntax_at: %d candidates" % len(f_sa))
+        o.functions.append(mirlib.func_ref(f_sa[0], "oal-client"))
+        exs = mirlib.executor([ML])
+        rets = [p for p in exs.run(f_sa[0], arg_names=["tree", "index"]) if p.kind == "return"]
+        mirlib.check_translator(o, exs, "syntax_at")
+        oks = len(rets) >= 1
+        for p in rets:
+            txt = ms.show(p.ret)
+            stages = re.findall(r"(?:Iterator|Option)::(\w+)\(", txt)
+            closures = [c for M2 in [ML] for c in M2.funcs if c.name.startswith(f_sa[0].name + "::{closure")]
+            contains = any(re.search(r"Range<usize>>::contains|RangeBounds<usize>>::contains|Range::<usize>::contains|::contains::<usize>", b.term or "") for c in closures for b in c.blocks.values())
+            oks = oks and "descendants" in txt and sorted(stages) == ["filter_map", "find"] and contains and len(closures) == 1
+        structural("syntax_at: descendants -> cast -> first node whose span's range contains the offset, and nothing else (no stage that stops the search early or discards the hit)", oks)
+    except KeyError as exn:
+        o.inconc(str(exn)[:160])
 
     # references(): definition found at the cursor, then find_references on it
     ex = mirlib.executor([ML], max_paths=4000)
